@@ -1213,7 +1213,7 @@ func runC02(c *Ctx) error {
 		}
 	}
 	// path-level relations, small run-structured contents (model correspondence)
-	n := c.N(90, 700)
+	n := c.N(72, 700)
 	for i := 0; i < n; i++ {
 		cr := r.Fork()
 		shape := c02ShapeNames[i%len(c02ShapeNames)]
@@ -1240,7 +1240,7 @@ func runC02(c *Ctx) error {
 		idx++
 	}
 	// lib.GenPair, small files (model correspondence), with and without kind swaps
-	n = c.N(24, 250)
+	n = c.N(20, 250)
 	for i := 0; i < n; i++ {
 		cr := r.Fork()
 		ks := i%3 == 2
